@@ -77,6 +77,34 @@ def gen_interfere(r, tier):
     return ops
 
 
+def gen_interfere_busy(r, tier):
+    """as `interfere`, but some control cycles fall into an RPM measurement of the same controller that is still waiting
+    for a slow RPM read (`w.cyclebusy`): the interference must be undone by THAT cycle all the same (seed C05f: the cycle was
+    skipped when the measurement held a lock). Oracle-only: how the measurement's own bookkeeping interleaves is not compared."""
+    ops = []
+    for _ in range(60 if tier == "quick" else 1500):
+        pm, resp = readsback_map(r)
+        lo, hi = streams.gen_limits(r)
+        toks = ["kind=hwmon", f"ns={r.below(2)}", "win=10", f"map={streams.int_map_tok(pm)}", streams.loop_tok(r),
+                f"resp={resp}", f"pwm={r.range(0,255)}", "rpm=900", "origmode=2", "origpwm=0",
+                f"minp={lo}", f"maxp={hi}", f"startp={lo}", "avg=x408f400000000000", f"mode={r.pick([1,2])}"]
+        ops.append("#case interfere busy=1")
+        ops.append("w.new " + " ".join(toks))
+        now = r.range(1, 10**12)
+        curve = r.range(0, 255)
+        for c in range(r.range(3, 12)):
+            if r.chance(0.5):
+                t = []
+                if r.chance(0.7):
+                    t.append(f"pwm={r.range(0, 255)}")
+                if r.chance(0.7):
+                    t.append(f"mode={r.pick([0, 2, 3])}")
+                ops.append("w.dev " + " ".join(t or [f"pwm={r.range(0,255)}"]))
+            now += 200_000_000
+            ops.append(f"w.{'cyclebusy' if r.chance(0.6) else 'cycle'} curve={curve} now={now}")
+    return ops
+
+
 class C05(Prop):
     id = "C05"
     lean_modules = ["Fan2go.Props.C05"]
@@ -86,7 +114,8 @@ class C05(Prop):
             "before a random cycle index (plus random extra ones). non-trivial = distinct (kind, map shape, loop, interference "
             "kind, cycle index bucket)")
     assumptions = ["device contract of the property: reads and writes succeed, the fan reads back what was written for map outputs"]
-    streams = [Stream("interfere", gen_interfere, parallel=8)]
+    streams = [Stream("interfere", gen_interfere, parallel=8),
+               Stream("interfere-busy", gen_interfere_busy, parallel=8, exact=False, contract=lambda op, a, b: True)]
 
     def oracle(self, name, ops, go):
         out = []
@@ -103,7 +132,7 @@ class C05(Prop):
             for i, op, pre, post in ctrl.walk(cops, cgo):
                 if op.startswith("w.dev") and "hasmode" in kv(op):
                     hasmode = kv(op)["hasmode"] == "1"
-                if not op.startswith("w.cycle"):
+                if not op.startswith("w.cycle"):   # w.cycle and w.cyclebusy
                     continue
                 if i < healed_at:
                     # outage phase (outside the device contract): nothing is judged; a cycle that got as far as writing
@@ -114,6 +143,9 @@ class C05(Prop):
                         left = None
                     continue
                 if post.get("res") != "ok":
+                    break
+                if post.get("last", "-") == "-":
+                    out.append(viol("a control cycle returned without requesting anything (the fan was not taken over, no PWM written)", cops, cgo, upto=i))
                     break
                 t = int(post["last"])
                 cands = {m[k] for k in keys if nearest_ok(keys, t, k)}
